@@ -19,6 +19,16 @@ fn checked_decimal_op(op: &str, a: Decimal, b: Decimal) -> Result<Decimal> {
     ans.ok_or(Error::NumberOverflow)
 }
 
+fn checked_shift_op(left: bool, a: i64, count: i64) -> Result<i64> {
+    let count = u32::try_from(count).map_err(|_| Error::InvalidShiftCount)?;
+    let ans = if left {
+        a.checked_shl(count)
+    } else {
+        a.checked_shr(count)
+    };
+    ans.ok_or(Error::InvalidShiftCount)
+}
+
 pub type InfixOpFunc = dyn Fn(Value, Value) -> Result<Value> + Send + Sync + 'static;
 
 pub type PrefixOpFunc = dyn Fn(Value) -> Result<Value> + Send + Sync + 'static;
@@ -91,8 +101,8 @@ impl InfixOpManager {
                 Arc::new(move |left, right| {
                     let (mut a, b) = (left.integer()?, right.integer()?);
                     match op {
-                        "<<=" => a <<= b,
-                        ">>=" => a >>= b,
+                        "<<=" => a = checked_shift_op(true, a, b)?,
+                        ">>=" => a = checked_shift_op(false, a, b)?,
                         "&=" => a &= b,
                         "^=" => a ^= b,
                         "|=" => a |= b,
@@ -172,8 +182,8 @@ impl InfixOpManager {
                         "|" => a |= b,
                         "^" => a ^= b,
                         "&" => a &= b,
-                        "<<" => a <<= b,
-                        ">>" => a >>= b,
+                        "<<" => a = checked_shift_op(true, a, b)?,
+                        ">>" => a = checked_shift_op(false, a, b)?,
                         _ => (),
                     }
                     Ok(Value::from(a))
